@@ -28,3 +28,23 @@ Example C02_overlap_is_order_dependent :
   let s2 (t : nat) := Ok (match t with 0 => [mk 2; mk 1] | _ => [] end) in
   walk s1 3 0 5 tt [] = Ok (5, [0; 1], tt) /\ walk s2 3 0 5 tt [] = Ok (5, [0; 2], tt).
 Proof. split; reflexivity. Qed.
+
+(* ---- Part 2: for typesets built by the GENERATED constructor the premise "the same relations in another order" is a
+   theorem (theory/GraphRefine.v on top of C14's well-formedness theorem): for ANY relation table with the table facts and
+   ANY two closed lists holding the same types - whatever the supply orders and the iteration orders of Python's sets -
+   both typesets are built and their ACTUAL graphs have the same exclusive walks (data, path, state): over the full
+   relation graph (infer) and over the identity graph (detect).  What remains a hypothesis is exclusivity itself
+   ([xwalks]): a property of the guards, decided on the implementation (and refuted for the recorded overlaps F02a-e). *)
+From V Require Import NxModel Engine_gen Engine_bridge GraphWF AlgebraTheory GraphRefine.
+
+Theorem C02_constructed_typesets_are_order_independent :
+  forall (T D St L F : Type) (X : ctx T D St L F) (rk : T -> nat), table_ok X rk ->
+  forall types1 types2 w1 w2,
+    closed X types1 -> (forall t, In t types1 <-> In t types2) ->
+    exists ts1 ts2 w1' w2',
+      VT_init X (VT_blank X) types1 w1 = Ok (tt, ts1, w1') /\
+      VT_init X (VT_blank X) types2 w2 = Ok (tt, ts2, w2') /\
+      (forall t d st path out, xwalks (succ_of X (relation_graph ts1)) t d st path out <-> xwalks (succ_of X (relation_graph ts2)) t d st path out) /\
+      (forall t d st path out, xwalks (succ_of X (base_graph ts1)) t d st path out <-> xwalks (succ_of X (base_graph ts2)) t d st path out).
+Proof. intros T D St L F X rk H. exact (constructed_order_independent X rk H). Qed.
+Print Assumptions C02_constructed_typesets_are_order_independent.
